@@ -47,6 +47,8 @@ class T:
         if self.kind == "GP":
             # third kid = the struct's own Option<Read<A25>> member
             return "GP<%s, %s, %s>" % (lt, self.kids[0].render(lt), self.kids[1].render(lt))
+        if self.kind == "GT":
+            return "GT<%s, %s, %s>" % (lt, self.kids[0].render(lt), self.kids[1].render(lt))
         if self.kind == "GL":
             return "GL<%s, %s, A%d>" % (lt, lt, self.p)
         if self.kind == "Derive":
@@ -73,7 +75,7 @@ class T:
     def has_lifetime(self):
         if self.kind in LEAF:
             return "{lt}" in LEAF[self.kind][0]
-        if self.kind in ("Derive", "GP", "GL"):
+        if self.kind in ("Derive", "GP", "GL", "GT"):
             return True
         return any(k.has_lifetime() for k in self.kids)
 
@@ -122,7 +124,8 @@ class Gen:
         # the derive cannot nest a two-lifetime struct inside another two-lifetime struct
         if st["extra_lt"] and any(k.two_lifetimes_inside() for k in kids):
             st["extra_lt"] = False
-        return T("Derive", kids=kids, name="S%d" % self.nderive, style=st)
+        prefix = self.rng.choice(["S", "S", "S", "ReadS", "WriteS", "ReadWriteS", "OptionS", "PhantomDataS", "FetchS", "WriteExpectS"])
+        return T("Derive", kids=kids, name="%s%d" % (prefix, self.nderive), style=st)
 
     # ---- systematic families ----
     ROT = ["Read", "Write", "ReadExpect", "WriteExpect", "OptRead", "OptWrite", "Unit", "Phantom", "NESTED", "DERIVED", "ReadC", "WriteC"]
@@ -164,7 +167,7 @@ class Gen:
         if r.random() < 0.3:
             p = r.randrange(NRES)
             return T("GL", p, kids=[T("ReadExpect", p), T("OptRead", p)])
-        return T("GP", kids=[self.rand_type(depth - 1, allow_conflict), self.rand_type(depth - 1, allow_conflict), T("OptRead", NRES - 1)])
+        return T(r.choice(["GP", "GT"]), kids=[self.rand_type(depth - 1, allow_conflict), self.rand_type(depth - 1, allow_conflict), T("OptRead", NRES - 1)])
 
     def holders(self, t, out):
         """label holders in fetch order: (node, writes?, fixed?)"""
@@ -176,7 +179,7 @@ class Gen:
                 out.append((t, LEAF[t.kind][2], False))
             return
         for i, k in enumerate(t.kids):
-            if t.kind == "GP" and i == 2:
+            if t.kind in ("GP", "GT") and i == 2:
                 out.append((k, False, True))  # the struct's own Option<Read<A25>>: a Rust type, not relabelled
             else:
                 self.holders(k, out)
@@ -207,6 +210,16 @@ class Gen:
             if w:
                 written.add(q)
         return True
+
+    def same_named_family(self, count):
+        """derived structs that are all called `Local`, each in a block of its own"""
+        for _ in range(count):
+            n = self.rng.choice([1, 1, 2, 3])
+            kids = [T(self.rng.choice(["Read", "Write", "ReadExpect", "OptWrite", "ReadC"]), 0) for _ in range(n)]
+            t = self.derive(kids)
+            t.style["extra_lt"] = False
+            if self.assign(t):
+                self.cases.append(("same-named", t))
 
     def random_family(self, count):
         made = 0
@@ -244,8 +257,10 @@ def emit(outdir, seed, tier, parts):
     if tier == "thorough":
         g.cross()
         g.random_family(9000)
+        g.same_named_family(600)
     else:
         g.random_family(500)
+        g.same_named_family(120)
     cases = g.cases
     os.makedirs(os.path.join(outdir, "src", "bin"), exist_ok=True)
     for f in ("Cargo.toml", "Cargo.lock"):
@@ -263,6 +278,8 @@ def emit(outdir, seed, tier, parts):
         body = []
         for cid, (family, t) in chunk:
             for d in t.derives():
+                if family == "same-named" and d is t:
+                    continue
                 src.append(derive_def(d))
             reads, writes, members, creators, bearing = model_of(t)
             expr = t.render("'_")
@@ -272,7 +289,13 @@ def emit(outdir, seed, tier, parts):
                     cid=cid, fam=family, expr=expr.replace('"', "'") if len(expr) < 1500 else expr[:1500] + "...", reads=reads, writes=writes,
                     members=", ".join("Member { res: %d, excl: %s, required: %s }" % (p, str(e).lower(), str(r).lower()) for p, e, r in members),
                     creators=", ".join("Creator { res: %d, value: %d }" % c for c in creators), bearing=bearing, h=h))
-            body.append("    check!(rt, M%d, %s);" % (cid, expr))
+            if family == "same-named":
+                # the definition lives in a block of its own: several types of one function share
+                # the name (and the printed type name) `Local`
+                local = derive_def(t).replace(t.name, "Local")
+                body.append("    {\n%s    check!(rt, M%d, Local<'_>);\n    }" % ("".join("        " + l + "\n" for l in local.splitlines()), cid))
+            else:
+                body.append("    check!(rt, M%d, %s);" % (cid, expr))
             if len(body) >= 25:
                 fns.append(body)
                 body = []
